@@ -1,0 +1,14 @@
+//go:build !verif
+
+package stream
+
+// verifOn is false unless the module is built with -tags verif; every hook call
+// site is `if verifOn { ... }`, so without the tag the hooks compile to nothing.
+const verifOn = false
+
+type verifState struct{}
+
+func (s *Stream) verifEv(ev string, kv ...any) {}
+
+// VerifFP is only meaningful with -tags verif.
+func VerifFP(b []byte) string { return "" }
